@@ -97,11 +97,10 @@ template <Kind K, typename MD>
     using J          = other_t<I>;
     constexpr auto R = E::rank();
     auto const seq   = std::make_index_sequence<R>{};
-    o.phase          = "data_handle()";
+    o.phase          = "construction"; // data_handle()/extent(r): attributed to the constructor
     o.handle_off     = s.data_handle() - base;
     o.rank           = MD::rank();
     o.rank_dynamic   = MD::rank_dynamic();
-    o.phase          = "extent(r)";
     for (std::size_t r = 0; r < R; ++r) {
         o.st[r]   = MD::static_extent(r);
         o.ext[r]  = static_cast<ll>(s.extent(r));
@@ -111,7 +110,7 @@ template <Kind K, typename MD>
     o.size  = static_cast<ll>(s.size());
     o.empty = s.empty();
     if constexpr (K != Kind::stride) {
-        o.phase        = "mapping().required_span_size()";
+        o.phase        = "mapping()";
         o.has_map_span = true;
         o.map_span     = static_cast<ll>(s.mapping().required_span_size());
     }
@@ -140,7 +139,7 @@ template <Kind K, typename MD>
         o.has_stride = true;
         for (std::size_t r = 0; r < R; ++r) { o.stride[r] = static_cast<ll>(s.stride(r)); }
     }
-    o.phase          = "is_*()";
+    o.phase          = "is_unique()/is_strided()";
     o.is_unique      = s.is_unique();
     o.is_strided     = s.is_strided();
     o.always_unique  = MD::is_always_unique();
@@ -149,7 +148,7 @@ template <Kind K, typename MD>
         o.is_exhaustive     = s.is_exhaustive();
         o.always_exhaustive = MD::is_always_exhaustive();
     }
-    o.phase = "done";
+    o.phase = "construction";
 }
 
 struct Expect {
@@ -161,15 +160,17 @@ struct Expect {
 void verify_md(Ctx& c, MdObs const& o, Indices const& ix, Expect const& x, TypeInfo const& ti, int const* base)
 {
     std::size_t const R = x.ext.size();
-    c.eq("data_handle()-ptr", o.handle_off, 0LL);
-    c.eq("rank()", o.rank, R);
-    c.eq("rank_dynamic()", o.rank_dynamic, ti.rank_dynamic);
-    c.eq("static_extent(r)", show_statics(std::vector<std::size_t>(o.st, o.st + R)), show_statics(ti.statics()));
-    c.eq("extent(r) for all r", show(std::vector<ll>(o.ext, o.ext + R)), show(x.ext));
-    c.eq("extents().extent(r) for all r", show(std::vector<ll>(o.ext2, o.ext2 + R)), show(x.ext));
-    c.eq("size()", o.size, product(x.ext));
-    c.eq("empty()", o.empty, int(product(x.ext) == 0));
-    if (o.has_map_span) { c.eq("mapping().required_span_size()", o.map_span, x.span); }
+    // the constructor decides data handle and extents; everything else follows from them
+    bool ok = c.eq("data_handle()-ptr", o.handle_off, 0LL);
+    ok      = c.eq("extent(r) for all r", show(std::vector<ll>(o.ext, o.ext + R)), show(x.ext)) && ok;
+    ok      = c.eq("extents().extent(r) for all r", show(std::vector<ll>(o.ext2, o.ext2 + R)), show(x.ext)) && ok;
+    if (!ok) { return; }
+    c.eq_o("rank()", o.rank, R);
+    c.eq_o("rank_dynamic()", o.rank_dynamic, ti.rank_dynamic);
+    c.eq_o("static_extent(r)", show_statics(std::vector<std::size_t>(o.st, o.st + R)), show_statics(ti.statics()));
+    c.eq_o("size()", o.size, product(x.ext));
+    c.eq_o("empty()", o.empty, int(product(x.ext) == 0));
+    if (o.has_map_span) { c.eq_o("mapping()", cat("required_span_size ", o.map_span), cat("required_span_size ", x.span)); }
     for (int f = 0; f < o.forms; ++f) {
         std::vector<unsigned char> hit(static_cast<std::size_t>(x.span), 0);
         bool reported = false;
@@ -182,27 +183,26 @@ void verify_md(Ctx& c, MdObs const& o, Indices const& ix, Expect const& x, TypeI
             if (got != ref || !inside) {
                 if (!reported) {
                     std::vector<ll> const idx(ix.flat.begin() + static_cast<std::ptrdiff_t>(k * R), ix.flat.begin() + static_cast<std::ptrdiff_t>((k + 1) * R));
-                    c.r.violation("C19", c.subject, c.cls, c.kase,
-                        cat(form_name[f], " at ", show(idx), ": element offset tetl=", got, " reference=", ref, inside ? " (inside" : " (OUTSIDE", " the block of ", x.span, " elements)"));
+                    c.fail_o(form_name[f], cat("index ", show(idx), ": element offset tetl=", got, " reference=", ref, inside ? " (inside" : " (OUTSIDE", " the block of ", x.span, " elements)"));
                     reported = true;
                 }
                 continue;
             }
             if (hit[static_cast<std::size_t>(got)]++ && !reported) {
-                c.r.violation("C19", c.subject, c.cls, c.kase, cat(form_name[f], ": two indices refer to the same element (offset ", got, ")"));
+                c.fail_o(form_name[f], cat("two indices refer to the same element (offset ", got, ")"));
                 reported = true;
             }
             if (base[got] != 1000 + static_cast<int>(got)) { c.fail(cat("harness: block content changed at ", got)); }
         }
-        if (o.off[f].size() != ix.n) { c.fail(cat(form_name[f], ": observed ", o.off[f].size(), " of ", ix.n, " indices")); }
+        if (o.off[f].size() != ix.n) { c.fail_o(form_name[f], cat("observed ", o.off[f].size(), " of ", ix.n, " indices")); }
     }
-    if (o.has_stride) { c.eq("stride(r) for all r", show(std::vector<ll>(o.stride, o.stride + R)), show(x.strides)); }
-    c.eq("is_unique()", o.is_unique, 1);
-    c.eq("is_strided()", o.is_strided, 1);
-    c.eq("is_always_unique()", o.always_unique, 1);
-    c.eq("is_always_strided()", o.always_strided, 1);
-    if (o.is_exhaustive != -1) { c.eq("is_exhaustive()", o.is_exhaustive, 1); }
-    if (o.always_exhaustive != -1) { c.eq("is_always_exhaustive()", o.always_exhaustive, 1); }
+    if (o.has_stride) { c.eq_o("stride(r)", show(std::vector<ll>(o.stride, o.stride + R)), show(x.strides)); }
+    c.eq_o("is_unique()", o.is_unique, 1);
+    c.eq_o("is_strided()", o.is_strided, 1);
+    c.eq_o("is_always_unique()", o.always_unique, 1);
+    c.eq_o("is_always_strided()", o.always_strided, 1);
+    if (o.is_exhaustive != -1) { c.eq_o("is_exhaustive()", o.is_exhaustive, 1); }
+    if (o.always_exhaustive != -1) { c.eq_o("is_always_exhaustive()", o.always_exhaustive, 1); }
     c.r.outcome(mc::hash_str(cat(show(x.ext), show(x.strides), show(o.off[0]))));
 }
 
@@ -216,8 +216,7 @@ void run_md(Ctx& c, MdFn fn, mc::GuardedBlock<int>& blk, ll const* a, ll const* 
     if (t == mc::Trap::none) {
         verify_md(c, o, ix, x, ti, blk.data());
     } else {
-        c.kase += cat(" [during ", o.phase, "]");
-        c.trap(t);
+        c.trap_o(t, o.phase);
     }
     if (!blk.intact()) { c.c02("wrote outside the element block"); }
     c.san_check();
@@ -419,7 +418,8 @@ void run_md_case(Ctx& c, TypeInfo const& ti, MdFns const& f, Limits lim, ll maxD
         auto const e        = full_extents(st, dv);
         auto const ix       = make_indices(e);
         bool const has_zero = std::find(e.begin(), e.end(), 0) != e.end();
-        std::string const zc = cat(pc, has_zero ? "+zero_extent" : "");
+        std::string const zc = R == 0 ? "rank0" : (has_zero ? "zero_extent" : "general");
+        c.ocls               = zc;
         ll const prod        = product(e);
         if (static_cast<ull>(prod) > lim.index_max || static_cast<ull>(prod) > lim.other_max) {
             ++c.skipped;
@@ -429,6 +429,7 @@ void run_md_case(Ctx& c, TypeInfo const& ti, MdFns const& f, Limits lim, ll maxD
             Buffer buf(prod);
             for (int side = 0; side < 2; ++side) {
                 Expect x{e, side == 0 ? strides_right(e) : strides_left(e), prod};
+                c.base = cat("mdspan<", lname[side], ">");
                 for (int k = 0; k < 10; ++k) {
                     if (f.lr[side][k] == nullptr) { continue; }
                     bool const all = (k == 1 || k == 3 || k == 5);
@@ -441,7 +442,8 @@ void run_md_case(Ctx& c, TypeInfo const& ti, MdFns const& f, Limits lim, ll maxD
             if (R == 2) {
                 for (int over = 0; over < 2; ++over) {
                     Expect x{e, over == 0 ? strides_right(e) : strides_left(e), prod};
-                    c.at(cat("mdspan<layout_transpose<", over == 0 ? "layout_left" : "layout_right", ">>"), zc,
+                    c.base = cat("mdspan<layout_transpose<", over == 0 ? "layout_left" : "layout_right", ">>");
+                    c.at(cat(c.base, "::mdspan(ptr,mapping)"), zc,
                         cat("mdspan<int,", en, ",layout_transpose<", over == 0 ? "layout_left" : "layout_right", ">>(ptr, mapping) extents ", show(e)));
                     run_md(c, f.transpose[over], buf.blk, dv.data(), e.data(), nullptr, ix, x, ti);
                     c.nontrivial += (ix.n > 1);
@@ -458,6 +460,7 @@ void run_md_case(Ctx& c, TypeInfo const& ti, MdFns const& f, Limits lim, ll maxD
                 }
                 Buffer buf(x.span);
                 bool const rowmajor = (s == strides_right(e)), colmajor = (s == strides_left(e));
+                c.base = "mdspan<layout_stride>";
                 c.at("mdspan<layout_stride>::mdspan(ptr,mapping)", cat(rowmajor ? "row_major" : (colmajor ? "column_major" : "padded_or_permuted"), "+", zc),
                     cat("mdspan<int,", en, ",layout_stride>(ptr, mapping(extents", show(dv), ", strides ", show(s), "))"));
                 run_md(c, f.stride, buf.blk, dv.data(), e.data(), s.data(), ix, x, ti);
